@@ -58,10 +58,12 @@ func transferProfile(tier Tier) *explore.Profile {
 }
 
 func tierDeadline(tier Tier) time.Duration {
+	// wall-clock caps are a safety net, far above what an idle machine needs (a capped profile ends
+	// with exhaustive:false and exit 0)
 	if tier.Thorough() {
-		return 12 * time.Minute
+		return 20 * time.Minute
 	}
-	return 100 * time.Second
+	return 5 * time.Minute
 }
 
 // PendingViolations / PendingCoverage let a check add the result of a preliminary enumeration to
